@@ -246,11 +246,6 @@ func (p *faultProp) Gen(seed uint64, tier string, i int) Case {
 	procs := []int{4, 16}[(rest/2)%2]
 	kind := p.kinds[slot%len(p.kinds)]
 	sh := faultShapes[shape]
-	if kind == "panic-error" && sh.Fallback {
-		// the reference engine itself re-panics on non-runtime panic values; only runtime panics are
-		// injected on the fallback path
-		kind = "panic-runtime"
-	}
 	c := Case{Prop: p.id, Kind: "fault", Seed: seed, Index: i, Query: sh.Query, Window: faultWindow(instant), Dataset: faultDataset()}
 	c.Engine = EngineCfg{Opt: sh.Opt, Fallback: sh.Fallback, Procs: procs}
 	if c.Engine.Opt == "" {
@@ -284,6 +279,7 @@ var errCallsByKind = map[string][]string{
 	"err":           {"Querier", "Select", "SS.Next", "Seek", "Next"},
 	"panic-runtime": {"Querier", "Select", "SS.Next", "SS.At", "SS.Err", "Labels", "Iterator", "Seek", "Next", "At"},
 	"panic-error":   {"Querier", "Select", "SS.Next", "Labels", "Iterator", "Seek", "Next", "At"},
+	"panic-string":  {"Querier", "Select", "SS.Next", "SS.Err", "Labels", "Iterator", "Seek", "Next", "At"},
 	"cancel":        {"Querier", "Select", "SS.Next", "SS.At", "SS.Err", "Labels", "Iterator", "Seek", "Next", "At"},
 	"block":         {"Querier", "Select", "SS.Next", "Seek", "Next"},
 }
@@ -769,7 +765,7 @@ func (p *faultProp) checkSequence(c Case) Outcome {
 }
 
 func init() {
-	Register(&faultProp{id: "C13", kinds: []string{"panic-runtime", "panic-error"}})
+	Register(&faultProp{id: "C13", kinds: []string{"panic-runtime", "panic-error", "panic-string"}})
 	Register(&faultProp{id: "C15", kinds: []string{"err"}})
 	Register(&faultProp{id: "C14", kinds: []string{"cancel", "block", "err", "panic-runtime", "none"}})
 	Register(&faultProp{id: "C17", kinds: []string{"none", "err", "panic-runtime", "cancel", "sequence"}})
